@@ -27,6 +27,9 @@ pub struct Case {
     /// the stub with every object's members in an order of its own (seed); results compared as multisets
     #[serde(default)]
     pub shuffled: Option<u64>,
+    /// the stub that holds non-negative integers in its unsigned form (two integer forms, one per number)
+    #[serde(default)]
+    pub posint: bool,
 }
 
 #[derive(Clone, Debug, Serialize, Deserialize)]
@@ -235,7 +238,7 @@ pub fn check_case(c: &Case) -> Option<Diff> {
         sim_locs(&sd, &mut vec![], &mut locs);
         eval_sim(&sd, &locs, Personality(c.personality), &c.query)
     } else {
-        let sd = SimDoc::from_value(&c.doc);
+        let sd = if c.posint { SimDoc::from_value_posint(&c.doc) } else { SimDoc::from_value(&c.doc) };
         sim_locs(&sd, &mut vec![], &mut locs);
         eval_sim(&sd, &locs, Personality(c.personality), &c.query)
     };
@@ -285,7 +288,7 @@ fn shrink_doc(c: &Case, class: &str) -> Case {
         rounds += 1;
         let mut progressed = false;
         for d in cands(&cur.doc) {
-            let cand = Case { personality: cur.personality, doc: d, query: cur.query.clone(), fat: cur.fat, shared: cur.shared, shuffled: cur.shuffled };
+            let cand = Case { personality: cur.personality, doc: d, query: cur.query.clone(), fat: cur.fat, shared: cur.shared, shuffled: cur.shuffled, posint: cur.posint };
             if check_case(&cand).map(|x| x.class == class).unwrap_or(false) {
                 cur = cand;
                 progressed = true;
@@ -300,7 +303,7 @@ fn shrink_doc(c: &Case, class: &str) -> Case {
     for _ in 0..40 {
         let mut progressed = false;
         for q in gen::shrink_query(&cur.query) {
-            let cand = Case { personality: cur.personality, doc: cur.doc.clone(), query: q, fat: cur.fat, shared: cur.shared, shuffled: cur.shuffled };
+            let cand = Case { personality: cur.personality, doc: cur.doc.clone(), query: q, fat: cur.fat, shared: cur.shared, shuffled: cur.shuffled, posint: cur.posint };
             if check_case(&cand).map(|x| x.class == class).unwrap_or(false) {
                 cur = cand;
                 progressed = true;
@@ -314,7 +317,7 @@ fn shrink_doc(c: &Case, class: &str) -> Case {
     for _ in 0..100 {
         let mut progressed = false;
         for d in cands(&cur.doc) {
-            let cand = Case { personality: cur.personality, doc: d, query: cur.query.clone(), fat: cur.fat, shared: cur.shared, shuffled: cur.shuffled };
+            let cand = Case { personality: cur.personality, doc: d, query: cur.query.clone(), fat: cur.fat, shared: cur.shared, shuffled: cur.shuffled, posint: cur.posint };
             if check_case(&cand).map(|x| x.class == class).unwrap_or(false) {
                 cur = cand;
                 progressed = true;
@@ -327,7 +330,7 @@ fn shrink_doc(c: &Case, class: &str) -> Case {
     }
     // a plainer stub that still shows it
     if cur.fat || cur.shared {
-        let cand = Case { personality: cur.personality, doc: cur.doc.clone(), query: cur.query.clone(), fat: false, shared: false, shuffled: cur.shuffled };
+        let cand = Case { personality: cur.personality, doc: cur.doc.clone(), query: cur.query.clone(), fat: false, shared: false, shuffled: cur.shuffled, posint: cur.posint };
         if check_case(&cand).map(|x| x.class == class).unwrap_or(false) {
             cur = cand;
         }
@@ -335,7 +338,7 @@ fn shrink_doc(c: &Case, class: &str) -> Case {
     // a simpler personality that still shows it
     for bit in [32u8, 16, 8, 4, 2, 1] {
         if cur.personality & bit != 0 {
-            let cand = Case { personality: cur.personality & !bit, doc: cur.doc.clone(), query: cur.query.clone(), fat: cur.fat, shared: cur.shared, shuffled: cur.shuffled };
+            let cand = Case { personality: cur.personality & !bit, doc: cur.doc.clone(), query: cur.query.clone(), fat: cur.fat, shared: cur.shared, shuffled: cur.shuffled, posint: cur.posint };
             if check_case(&cand).map(|x| x.class == class).unwrap_or(false) {
                 cur = cand;
             }
@@ -361,12 +364,13 @@ pub fn tier(name: &str) -> TierCfg {
 struct FamOut {
     evals: u64,
     fat_evals: u64,
+    posint_evals: u64,
     shared_evals: u64,
     shuffled_evals: u64,
     nonempty: u64,
     shapes: BTreeSet<(u8, u64)>,
     counts: [u64; simdoc::N_ACC],
-    by_pers: [u64; 64],
+    by_pers: [u64; 256],
     errs: u64,
     first: Option<(u64, Case, Diff)>,
     n_viol: u64,
@@ -375,7 +379,7 @@ struct FamOut {
 }
 
 fn run_family(seed: u64, f: u64, q_per_fam: usize) -> FamOut {
-    let mut out = FamOut { evals: 0, fat_evals: 0, shared_evals: 0, shuffled_evals: 0, nonempty: 0, shapes: BTreeSet::new(), counts: [0; simdoc::N_ACC], by_pers: [0; 64], errs: 0, first: None, n_viol: 0, sample: None, classes: BTreeMap::new() };
+    let mut out = FamOut { evals: 0, fat_evals: 0, posint_evals: 0, shared_evals: 0, shuffled_evals: 0, nonempty: 0, shapes: BTreeSet::new(), counts: [0; simdoc::N_ACC], by_pers: [0; 256], errs: 0, first: None, n_viol: 0, sample: None, classes: BTreeMap::new() };
     let mut rng = Rng::new(derive(seed, "c15fam", f));
     let p = match f % 11 {
         3 => DocParams { max_nodes: 60 + rng.below(60), max_depth: 2 + rng.below(2), names: gen::NAMES_C15, max_width: 14, long_arrays: true, mixed_names: false },
@@ -410,7 +414,7 @@ fn run_family(seed: u64, f: u64, q_per_fam: usize) -> FamOut {
     }
     let mut names = vec![];
     gen::names_of(&base, &mut names);
-    let g = QGen { names: &names, fancy: true, regex: true, ext: true, safe_quotes: true, reenter: false };
+    let g = QGen { names: &names, fancy: true, regex: true, ext: true, safe_quotes: true, reenter: false, unknown_fn: true };
     let mut queries: Vec<String> = vec![];
     for _ in 0..q_per_fam {
         let t = rng.weighted(&[3, 4, 3]);
@@ -445,6 +449,9 @@ fn run_family(seed: u64, f: u64, q_per_fam: usize) -> FamOut {
         let shuf: SimDoc = SimDoc::from_value_shuffled(d, shuf_seed);
         let mut shlocs = HashMap::new();
         sim_locs(&shuf, &mut vec![], &mut shlocs);
+        let pd: SimDoc = SimDoc::from_value_posint(d);
+        let mut plocs = HashMap::new();
+        sim_locs(&pd, &mut vec![], &mut plocs);
         let fd = FatDoc::from_value(d);
         let mut flocs = HashMap::new();
         sim_locs(&fd, &mut vec![], &mut flocs);
@@ -463,7 +470,7 @@ fn run_family(seed: u64, f: u64, q_per_fam: usize) -> FamOut {
                         out.n_viol += 1;
                         *out.classes.entry(diff.class.clone()).or_insert(0) += 1;
                         if out.first.is_none() {
-                            out.first = Some((f, Case { personality: pers, doc: d.clone(), query: q.clone(), fat: false, shared: false, shuffled: Some(shuf_seed) }, diff));
+                            out.first = Some((f, Case { personality: pers, doc: d.clone(), query: q.clone(), fat: false, shared: false, shuffled: Some(shuf_seed), posint: false }, diff));
                         }
                     }
                 }
@@ -479,8 +486,36 @@ fn run_family(seed: u64, f: u64, q_per_fam: usize) -> FamOut {
                         out.n_viol += 1;
                         *out.classes.entry(diff.class.clone()).or_insert(0) += 1;
                         if out.first.is_none() {
-                            out.first = Some((f, Case { personality: pers, doc: d.clone(), query: q.clone(), fat: false, shared: true, shuffled: None }, diff));
+                            out.first = Some((f, Case { personality: pers, doc: d.clone(), query: q.clone(), fat: false, shared: true, shuffled: None, posint: false }, diff));
                         }
+                    }
+                }
+            }
+            // the two-integer-forms stub, under the two extreme personalities
+            for pers in [0u8, 7] {
+                let got = eval_sim(&pd, &plocs, Personality(pers), q);
+                out.evals += 1;
+                out.posint_evals += 1;
+                if let Some(diff) = compare(&want, &got.canon) {
+                    out.n_viol += 1;
+                    *out.classes.entry(diff.class.clone()).or_insert(0) += 1;
+                    if out.first.is_none() {
+                        out.first = Some((f, Case { personality: pers, doc: d.clone(), query: q.clone(), fat: false, shared: false, shuffled: None, posint: true }, diff));
+                    }
+                }
+            }
+            // a type that keeps the provided extension_custom: only where none of Value's own five
+            // functions is called (those are Value's extras, not the trait's)
+            if !["in(", "nin(", "none_of(", "any_of(", "subset_of("].iter().any(|n| q.contains(n)) {
+                let pers = 64u8;
+                let got = eval_sim(&sd, &locs, Personality(pers), q);
+                out.evals += 1;
+                out.by_pers[64] += 1;
+                if let Some(diff) = compare(&want, &got.canon) {
+                    out.n_viol += 1;
+                    *out.classes.entry(diff.class.clone()).or_insert(0) += 1;
+                    if out.first.is_none() {
+                        out.first = Some((f, Case { personality: pers, doc: d.clone(), query: q.clone(), fat: false, shared: false, shuffled: None, posint: false }, diff));
                     }
                 }
             }
@@ -493,14 +528,14 @@ fn run_family(seed: u64, f: u64, q_per_fam: usize) -> FamOut {
                     out.n_viol += 1;
                     *out.classes.entry(diff.class.clone()).or_insert(0) += 1;
                     if out.first.is_none() {
-                        out.first = Some((f, Case { personality: pers, doc: d.clone(), query: q.clone(), fat: true, shared: false, shuffled: None }, diff));
+                        out.first = Some((f, Case { personality: pers, doc: d.clone(), query: q.clone(), fat: true, shared: false, shuffled: None, posint: false }, diff));
                     }
                 }
             }
             for pers in [0u8, 1, 2, 3, 4, 5, 6, 7, 8, 15, 16, 32, 63] {
                 let got = eval_sim(&sd, &locs, Personality(pers), q);
                 out.evals += 1;
-                out.by_pers[(pers as usize).min(63)] += 1;
+                out.by_pers[(pers as usize).min(255)] += 1;
                 for i in 0..simdoc::N_ACC {
                     out.counts[i] += got.counts[i];
                 }
@@ -514,7 +549,7 @@ fn run_family(seed: u64, f: u64, q_per_fam: usize) -> FamOut {
                     out.n_viol += 1;
                     *out.classes.entry(diff.class.clone()).or_insert(0) += 1;
                     if out.first.is_none() {
-                        out.first = Some((f, Case { personality: pers, doc: d.clone(), query: q.clone(), fat: false, shared: false, shuffled: None }, diff));
+                        out.first = Some((f, Case { personality: pers, doc: d.clone(), query: q.clone(), fat: false, shared: false, shuffled: None, posint: false }, diff));
                     }
                 } else if out.sample.is_none() && pers == 7 {
                     if let Ok(v) = &got.canon {
@@ -558,12 +593,13 @@ pub fn drive(tier_name: &str, seed: u64, workers: usize) -> i32 {
     outs.sort_by_key(|(f, _)| *f);
     let mut evals = 0u64;
     let mut fat_evals = 0u64;
+    let mut posint_evals = 0u64;
     let mut shared_evals = 0u64;
     let mut shuffled_evals = 0u64;
     let mut nonempty = 0u64;
     let mut shapes: BTreeSet<(u8, u64)> = BTreeSet::new();
     let mut counts = [0u64; simdoc::N_ACC];
-    let mut by_pers = [0u64; 64];
+    let mut by_pers = [0u64; 256];
     let mut errs = 0u64;
     let mut n_viol = 0u64;
     let mut first: Option<(u64, Case, Diff)> = None;
@@ -572,6 +608,7 @@ pub fn drive(tier_name: &str, seed: u64, workers: usize) -> i32 {
     for (_, o) in outs {
         evals += o.evals;
         fat_evals += o.fat_evals;
+        posint_evals += o.posint_evals;
         shared_evals += o.shared_evals;
         shuffled_evals += o.shuffled_evals;
         nonempty += o.nonempty;
@@ -579,7 +616,7 @@ pub fn drive(tier_name: &str, seed: u64, workers: usize) -> i32 {
         for i in 0..simdoc::N_ACC {
             counts[i] += o.counts[i];
         }
-        for i in 0..64 {
+        for i in 0..256 {
             by_pers[i] += o.by_pers[i];
         }
         errs += o.errs;
@@ -688,7 +725,7 @@ pub fn drive(tier_name: &str, seed: u64, workers: usize) -> i32 {
         let min = shrink_doc(case, &diff.class);
         let d2 = check_case(&min).unwrap_or(diff.clone());
         let body = json!({"property": "C15", "kind": "c15-case", "class": d2.class, "detail": d2.detail, "case": min, "original_document": case.doc,
-            "personality_bits": "bit0: as_f64 is None for integers; bit1: Default::default() is a sentinel string; bit2: Debug is opaque; bit3: From<f64> of an integral value builds the integer form; bit4: get() with a bare all-digit key indexes arrays; bit5: From<Vec<Self>> builds a sentinel string",
+            "personality_bits": "bit0: as_f64 is None for integers; bit1: Default::default() is a sentinel string; bit2: Debug is opaque; bit3: From<f64> of an integral value builds the integer form; bit4: get() with a bare all-digit key indexes arrays; bit5: From<Vec<Self>> builds a sentinel string; bit6: extension_custom is the trait's provided body (only on queries that call none of Value's five functions)",
             "how_to_replay": "./check C15 --replay <this file>"});
         let p = report::write_replay("C15", &format!("seed{}-fam{}", seed, f), &body);
         println!("violation class={} personality={}{} query={} document={} — {}", d2.class, min.personality, if min.fat { " (large node type)" } else if min.shared { " (sharing stub)" } else if min.shuffled.is_some() { " (member order shuffled; multiset comparison)" } else { "" }, min.query, min.doc.to_string().chars().take(600).collect::<String>(), d2.detail);
@@ -737,13 +774,14 @@ pub fn drive(tier_name: &str, seed: u64, workers: usize) -> i32 {
         "samples": samples,
         "single_threaded_evaluations": evals,
         "evaluations_over_the_large_node_type": fat_evals,
+        "evaluations_over_the_two_integer_forms_stub": posint_evals,
         "evaluations_over_the_sharing_stub": shared_evals,
         "evaluations_over_the_member_order_shuffled_stub": shuffled_evals,
         "node_sizes_in_bytes": {"serde_json::Value": std::mem::size_of::<Value>(), "SimDoc": std::mem::size_of::<SimDoc>(), "FatDoc": std::mem::size_of::<FatDoc>()},
         "evaluations_with_non_empty_result": nonempty,
         "value_side_errors": errs,
         "evaluations_by_personality": by_pers.iter().enumerate().filter(|(_, n)| **n > 0).map(|(i, n)| (format!("p{}", i), *n)).collect::<BTreeMap<_, _>>(),
-        "personality_bits": "bit0: as_f64 is None for integers; bit1: Default::default() is a sentinel string; bit2: Debug is opaque; bit3: From<f64> of an integral value builds the integer form; bit4: get() with a bare all-digit key indexes arrays; bit5: From<Vec<Self>> builds a sentinel string",
+        "personality_bits": "bit0: as_f64 is None for integers; bit1: Default::default() is a sentinel string; bit2: Debug is opaque; bit3: From<f64> of an integral value builds the integer form; bit4: get() with a bare all-digit key indexes arrays; bit5: From<Vec<Self>> builds a sentinel string; bit6: extension_custom is the trait's provided body (only on queries that call none of Value's five functions)",
         "accessor_calls": acc,
         "scheduled_class": {"runs": threaded_done, "operations": threaded_ops, "scheduler_steps": threaded_steps, "context_switches": threaded_switches, "client_aborts_fired": threaded_faults, "cold_value_keys": table.len()},
         "differences_by_class": classes,
